@@ -76,6 +76,9 @@ impl TlsClientHelloReader {
                 "First byte is not TLS Handshake (0x16), got 0x{:02x}. Might be continuation data.",
                 content_type
             );
+            // Nothing that starts like this can become a ClientHello: do not keep it around
+            // (application data on a tracked flow would otherwise accumulate without bound).
+            self.buffer.clear();
             return Ok(None);
         }
 
